@@ -255,6 +255,10 @@ def mk_device_full(spec):
 def dataclass_diff(a, b, path=""):
     import dataclasses
 
+    if hasattr(a, "static_hash") and hasattr(b, "static_hash"):
+        # layouts / weight maps: equality is defined by their content, the
+        # special-layout subclass is not part of the abstract representation
+        return None if (a == b and getattr(a, "slug", None) == getattr(b, "slug", None)) else f"{path}: layouts differ"
     scal = (int, float, complex, np.number, bool)
     if type(a) is not type(b) and not (isinstance(a, scal) and isinstance(b, scal)) and not (
             isinstance(a, (tuple, list)) and isinstance(b, (tuple, list))):
